@@ -123,7 +123,23 @@ def run(ctx):
                                     edge_ok=lambda b, to, lab: not (f.term(b).get("cond") is not None and fmt(f.term(b)["cond"]) == "%s.second" % res and lab == "false"))
             ctx.check(p is None, "R13.1", f, "inserted-implies-listed", "an option can be inserted without being added to the creation-order list (it would be missing from the usage text)", f)
         rets = [fmt(ir.unwrap(e2["expr"].get("e"))) for _, _, e2 in f.roots() if e2["expr"].get("k") == "return"]
-        ctx.check(res is not None and all(r == "%s.first.operator->()->second" % res for r in rets), "R13.1", f, "returns-the-map-element", "group::%s returns %s" % (k, rets), f)
+        # ... or the element found under the same name in the group's own map of this kind (`auto it = own.find(name); if (it != own.end()) return it->second;`)
+        found = set()
+        for _, _, e2 in f.roots():
+            x2 = e2["expr"]
+            if x2.get("k") == "decl":
+                for v2 in x2.get("vars", []):
+                    i2 = ir.unwrap(v2.get("init")) if v2.get("init") is not None else None
+                    while isinstance(i2, dict) and i2.get("k") in ("construct", "cast") and (i2.get("e") is not None or len(i2.get("args", [])) == 1):
+                        i2 = ir.unwrap(i2.get("e") if i2.get("e") is not None else i2["args"][0])
+                    if isinstance(i2, dict) and i2.get("k") == "call" and short(i2.get("name") or "") == "find" and fmt(i2.get("this")) == own and len(i2.get("args", [])) == 1 and fmt(ir.unwrap(i2["args"][0])) == pn:
+                        # dereferenced only where it is known not to be end()
+                        guarded = all(any(fmt(ir.unwrap(f.term(d0).get("cond") or {})) in ("(%s != %s.end())" % (v2["name"], own), "(%s.end() != %s)" % (own, v2["name"])) and
+                                          not cfg.reachable_without_edge(f, d0, [to for to, lab in f.succs(d0) if lab == "true"][0], b3) for d0 in cfg.dominators(f).get(b3, ()) if f.term(d0).get("cond") is not None)
+                                      for b3, _, e3 in f.roots() if e3["expr"].get("k") == "return" and fmt(ir.unwrap(e3["expr"].get("e"))) == "%s.operator->()->second" % v2["name"])
+                        if guarded:
+                            found.add("%s.operator->()->second" % v2["name"])
+        ctx.check(res is not None and all(r == "%s.first.operator->()->second" % res or r in found for r in rets), "R13.1", f, "returns-the-map-element", "group::%s returns %s" % (k, rets), f)
     ctx.need("R13.1", "declaration functions", ndecl, 3)
 
     # ---- R13.2
@@ -276,7 +292,7 @@ def run(ctx):
     # ---- R13.4
     parse = prog.fn(PARSE_VEC)
     cpc = one(ctx, "R13.4", NS + "parser::check_parser_consistency")
-    if ctx.anchor("R13.4", PARSE_VEC, parse is not None) and cpc:
+    for _once in ([1] if (ctx.anchor("R13.4", PARSE_VEC, parse is not None) and cpc) else []):
         is_cpc = lambda e: any(n.get("callee") == cpc.id for n in elem_calls(e))
         any_other_call = lambda e: any(n.get("k") == "call" and n.get("callee") != cpc.id and (n.get("name") or "").startswith("nitro::") for n in elem_calls(e))
         ok, path = cfg.must_precede(parse, is_cpc, any_other_call)
@@ -326,6 +342,17 @@ def run(ctx):
         for hd, body in cfg.loop_blocks(cpc):
             loop_blocks |= body
         one_set = len(sets) == 1 and sets[0][0] not in loop_blocks and not inner_sets and "multiset" not in (sets[0][2] or "")
+        if not sets and not inner_sets:
+            # no std::set anywhere, but the visitors still end in the developer error for some letters: the letters seen so far are kept
+            # in another structure (a sorted vector searched with lower_bound, a bitmap). Whether that detects every duplicate rests on
+            # an invariant of that structure (sortedness, index range) this rule does not derive - not a verdict about the code
+            others = [(v["name"], v.get("type")) for _, _, e in cpc.roots() if e["expr"].get("k") == "decl" for v in e["expr"].get("vars", [])
+                      if re.search(r"vector<|deque<|list<|array<|bitset<|map<|\[\d+\]", v.get("type") or "")]
+            still_raises = any(exc == PARSER_ERROR for g in inner if g.has_cfg for b in g.reachable_blocks() if g.is_noreturn(b) for _, exc, _ in C04.raise_nodes(g, b))
+            if others and still_raises:
+                ctx.broken("R13.4", cpc, "one-letter-set-for-the-whole-parser", "the letters seen so far are kept in `%s %s`, not in a std::set: duplicate detection through this structure "
+                           "(search + ordered insertion) is an idiom this rule does not recognise" % (others[0][1], others[0][0]), cpc)
+                break
         ctx.check(one_set, "R13.4", cpc, "one-letter-set-for-the-whole-parser",
                   "the set that detects duplicate letters is not a single std::set declared once per consistency check (found %s outer, %s per-iteration): "
                   "letters are only unique per group/kind" % ([s[1] for s in sets], inner_sets), cpc)
